@@ -158,22 +158,68 @@ class RaisingTypename(object):
         raise werr_class()(self._msg)
 
 
-def _lazy_items(items, msg):
+class Obj(object):
+    """ONE generic Python class for the runtime values of EVERY object type: the GraphQL type name is INSTANCE state
+    (a per-class memo of `__typename__` would complete all of them as the first one's type)"""
+
+    def __init__(self, typename, **fields):
+        self.__typename__ = typename
+        for k, v in fields.items():
+            setattr(self, k, v)
+
+
+class DictSub(dict):
+    """a Mapping that is not exactly `dict`"""
+
+
+class PropObj(object):
+    """`__typename__` as a property over instance state"""
+
+    def __init__(self, typename):
+        self._tn = typename
+
+    @property
+    def __typename__(self):
+        return self._tn
+
+
+OBJ_STYLES = ("dict", "Obj", "SimpleNamespace", "dict-subclass", "property", "mixed")
+_OBJ_COUNTER = [0]
+
+
+def make_obj(typename, style):
+    """the runtime value of an object of GraphQL type `typename` (the world's resolvers ignore its content)"""
+    import types as _t
+    if style == 5:
+        _OBJ_COUNTER[0] += 1
+        style = _OBJ_COUNTER[0] % 5
+    if style == 1:
+        return Obj(typename)
+    if style == 2:
+        return _t.SimpleNamespace(__typename__=typename)
+    if style == 3:
+        return DictSub(__typename__=typename)
+    if style == 4:
+        return PropObj(typename)
+    return {"__typename__": typename}
+
+
+def _lazy_items(items, msg, style):
     for x in items:
-        yield raw_to_py(x)
+        yield raw_to_py(x, style)
     raise werr_class()(msg)
 
 
-def raw_to_py(raw):
-    """raw world value -> the Python value a resolver returns"""
+def raw_to_py(raw, style=0):
+    """raw world value -> the Python value a resolver returns; `style` picks the Python representation of objects"""
     if isinstance(raw, tuple):
         if raw[0] == "list":
-            return [raw_to_py(x) for x in raw[1]]
+            return [raw_to_py(x, style) for x in raw[1]]
         if raw[0] == "raise":
             if raw[3] == "list":
-                return _lazy_items(raw[1], raw[2])
+                return _lazy_items(raw[1], raw[2], style)
             return RaisingTypename(raw[2])
-        return {"__typename__": raw[1]}
+        return make_obj(raw[1], style)
     if isinstance(raw, dict) and "$float" in raw:
         return float(raw["$float"])
     return raw
@@ -225,7 +271,7 @@ def install_world(schema, holder):
             raise WErr(o[1], extensions=o[2])
         if o[0] == "boom":
             raise WorldError("unexpected")
-        return raw_to_py(o[1])
+        return raw_to_py(o[1], w.seed % len(OBJ_STYLES))
 
     schema.default_resolver = resolver
     return resolver
